@@ -683,6 +683,38 @@ pub fn mem(cx: &mut Ctx, which: &str) {
             }
         }
     }
+    // lane sweep: one primary defect at EVERY position of buffers that span one to five 16-unit strides (+ a tail), for the
+    // validators and classifiers (not the conversions): unrolled stride kernels are checked lane by lane
+    for &len in [16usize, 17, 32, 35, 48, 64, 67, 80].iter() {
+        for fill in 1..=8usize {
+            for p in 0..len {
+                for (di, d) in [&[0x80u8][..], &[0xFF], &[0xC0, 0x80], &[0xE0, 0x80], &[0xD7, 0x90], &[0xC4, 0x80]].iter().enumerate() {
+                    if !cx.thorough && (p + di + fill + seed) % 2 != 0 {
+                        continue;
+                    }
+                    let mut rc = Recipe { u16: false, fill, len, patch: vec![] };
+                    for (i, &x) in d.iter().enumerate() {
+                        rc.patch.push((p + i, x as u32));
+                    }
+                    for f in UTF8_FNS.iter().chain(BYTE_FNS.iter()).filter(|f| want(f) && !f.starts_with("convert_") && !f.starts_with("copy_") && **f != "decode_latin1") {
+                        emit(cx, f, &rc, dl_for(f, len));
+                    }
+                }
+                for (di, d) in [&[0xD800u16][..], &[0xDC00], &[0xDBFF], &[0x5D0], &[0x100]].iter().enumerate() {
+                    if !cx.thorough && (p + di + fill + seed) % 2 != 0 {
+                        continue;
+                    }
+                    let mut rc = Recipe { u16: true, fill, len, patch: vec![] };
+                    for (i, &x) in d.iter().enumerate() {
+                        rc.patch.push((p + i, x as u32));
+                    }
+                    for f in UTF16_FNS.iter().filter(|f| want(f) && !f.starts_with("convert_") && !f.starts_with("ensure_") && !f.starts_with("copy_")) {
+                        emit(cx, f, &rc, dl_for(f, len));
+                    }
+                }
+            }
+        }
+    }
     // per-character predicates, exhaustive
     if which == "c16" || which == "all" {
         ranges(cx);
